@@ -15,6 +15,7 @@ pub mod acc;
 pub mod iter;
 pub mod serdefam;
 pub mod ctor;
+pub mod giant;
 
 #[global_allocator]
 static GLOBAL: canary::Canary = canary::Canary;
